@@ -1,6 +1,7 @@
 package main
 
 import (
+	"go/token"
 	"flag"
 	"go/constant"
 	"fmt"
@@ -294,13 +295,29 @@ func run() int {
 							if g, ok := st.Addr.(*ssa.Global); ok {
 								writes = append(writes, fn.String()+" writes "+g.Name())
 							}
+							continue
+						}
+						// the ADDRESS of a package-level variable used for anything
+						// but reading it (a method call on it, a field/element
+						// address, passing it on) makes it shared mutable state
+						// (sync.Pool, caches, scratch buffers)
+						if u, ok := ins.(*ssa.UnOp); ok && u.Op == token.MUL {
+							continue
+						}
+						for _, op := range ins.Operands(nil) {
+							if op == nil || *op == nil {
+								continue
+							}
+							if g, ok := (*op).(*ssa.Global); ok && g.Pkg == sp {
+								writes = append(writes, fn.String()+" takes the address of "+g.Name())
+							}
 						}
 					}
 				}
 			}
 			sort.Strings(writes)
 			ck := &Check{Name: sp.Pkg.Path() + "/globals#readonly", Class: "frame", Fn: sp.Pkg.Path(), Props: []string{"C20"},
-				Info: "no function of the package assigns a package-level variable outside init", Goal: "false"}
+				Info: "no function of the package assigns a package-level variable outside init, or uses the address of one for anything but reading it", Goal: "false"}
 			st := "trivial"
 			ck.Trivial = true
 			out := ""
